@@ -78,6 +78,8 @@ def universe():
     # scalars whose == raises inside numpy (out-of-range dates, ints beyond 64 bits against numpy scalars): eq is still a boolean
     u += [{'$np': ['datetime64[D]', '9999-12-31']}, {'$np': ['datetime64[D]', '1000-01-01']}, 2 ** 70, -2 ** 70, [{'$np': ['datetime64[D]', '9999-12-31']}], {'a': 2 ** 70}, {'$np': ['datetime64[ns]', '2020-01-01T00:00:00']}]
     # a missing timestamp / duration is a NaN of its kind: a value holding one equals its structural copy (fresh NaT objects), at any depth
+    # one decimal fraction at two precisions next to the python float
+    u += [{'$np': ['float32', 0.1]}, 0.1, {'$np': ['float64', 0.1]}, [{'$np': ['float32', 0.1]}], [0.1]]
     NAT, NATD, NATT = {'$np': ['datetime64[ns]', 'NaT']}, {'$np': ['datetime64[D]', 'NaT']}, {'$np': ['timedelta64[s]', 'NaT']}
     u += [NAT, NATD, NATT, [NAT], [NATD, 1], T(NATT), {'a': NAT}, {'a': [NAT, {'$np': ['datetime64[ns]', '2020-01-01T12:00:00']}]}]
     return u
@@ -175,6 +177,13 @@ def plain_shape(x):
     return None
 
 
+def _plain_eq(a, b):
+    try:
+        return bool(a == b)
+    except Exception:
+        return False
+
+
 def _sc_nan(v):
     if isinstance(v, (np.datetime64, np.timedelta64)):
         return 'NaT:' + type(v).__name__ if np.isnat(v) else ''       # a missing date is not a missing duration
@@ -223,6 +232,20 @@ def is_dt_family(x):
     return isinstance(x, (datetime.datetime, pd.Timestamp, np.datetime64, datetime.date))
 
 
+def dt_leaves(x, depth=0):
+    """the cells of x if x is a date-like scalar or an array / list / tuple of date-like scalars (else None), each with its numpy unit"""
+    if is_dt_family(x):
+        return [(type(x).__name__, str(x.dtype) if isinstance(x, np.datetime64) else '')]
+    if depth < 2 and isinstance(x, np.ndarray) and x.size and x.dtype.kind in 'MO':
+        cells = _cells(x) if x.dtype.kind == 'M' else list(x.reshape(-1))
+        out = [dt_leaves(c, depth + 1) for c in cells]
+        return None if any(o is None for o in out) else [('ndarray:' + str(x.dtype),) + l for o in out for l in o]
+    if depth < 2 and isinstance(x, (list, tuple)) and len(x):
+        out = [dt_leaves(c, depth + 1) for c in x]
+        return None if any(o is None for o in out) else [l for o in out for l in o]
+    return None
+
+
 def laws(ctx, terms, label):
     from pyg_base import eq, in_
     A = [codec.dec(t) for t in terms]
@@ -260,18 +283,24 @@ def laws(ctx, terms, label):
     ctx.monitors['eq_transitive_triples'] += n * n * n
     Ei = E.astype(np.int32)
     V = ((Ei @ Ei) > 0) & ~E
-    seen = 0
+    per_mech = {}
     for i, k in np.argwhere(V):
         i, k = int(i), int(k)
         j = int(np.argwhere(E[i, :] & E[:, k])[0][0])
         trip = [A[i], A[j], A[k]]
         mech = None
+        leaves = [dt_leaves(v) for v in trip]
         if all(is_dt_family(v) for v in trip) and len({type(v) for v in trip}) >= 2:
             mech = 'datetime-family-==-not-transitive'
+        elif all(l is not None for l in leaves) and len({tuple(l) for l in leaves}) >= 2 and len({type(v) for v in trip}) == 1:
+            # the same, one level down: same-shaped arrays / lists whose cells are date-like scalars of different types or units
+            mech = 'datetime-family-==-not-transitive'
+        elif all(isinstance(v, (bool, int, float, np.number)) for v in trip) and len({type(v) for v in trip}) >= 2 and _plain_eq(trip[0], trip[1]) and _plain_eq(trip[1], trip[2]) and not _plain_eq(trip[0], trip[2]):
+            mech = 'numeric-==-not-transitive-across-float-precisions'       # the three == outcomes themselves are not transitive (a float32 against a python float is compared in float32, against a float64 in float64)
+        per_mech[mech] = per_mech.get(mech, 0) + 1
+        if per_mech[mech] > (6 if mech is None else 3):
+            continue          # a few witnesses per mechanism: a known one must not crowd out another
         ctx.fail('eq_transitive_triples', 'eq(x,y) and eq(y,z) but not eq(x,z): x=%r y=%r z=%r' % (terms[i], terms[j], terms[k]), mech=mech, case={'kind': 'triple', 'x': terms[i], 'y': terms[j], 'z': terms[k]})
-        seen += 1
-        if seen >= 6:
-            break
     # container-kind strictness and agreement with ==
     for i in range(n):
         for j in range(n):
